@@ -3,7 +3,7 @@ CONSTANTS
   Libs = {"A", "B", "C", "D"}
   NT = 2
   Statuses = {"absent", "fwd", "fwdg", "def", "defg"}
-  Statuses2 = {"absent", "fwd", "defg"}
+  Statuses2 = {"absent", "defg"}
   Modes = {"db"}
   LookupKinds = {"tn", "tsn", "ttn", "mn", "en", "esn"}
   FileBase = 3
